@@ -29,6 +29,7 @@ type Env struct {
 	lookup  func(name string, env *Env) (TV, bool)
 	top0    string // $top at function entry (for fresh())
 	depth   int
+	seenOf  func(env *Env, key string) string
 }
 
 type specErr struct{ msg string }
@@ -677,6 +678,13 @@ func (env *Env) call(x *ast.CallExpr) TV {
 		case "allocated":
 			v := env.expr(x.Args[0])
 			return TV{and("(< 0 "+v.T+")", "(< "+v.T+" "+vc.get(env.heap, compTop)+")"), tBool}
+		case "seen":
+			// seen(k): key k has already been visited by the enclosing range-over-map loop
+			if env.seenOf == nil {
+				sfail("seen() is only available in invariants of range-over-map loops")
+			}
+			k := env.expr(x.Args[0])
+			return TV{env.seenOf(env, k.T), tBool}
 		case "isnil":
 			v := env.expr(x.Args[0])
 			return TV{eq(v.T, vc.sorts.zero(v.Ty, vc.lits)), tBool}
